@@ -11,6 +11,7 @@ import (
 	"fmt"
 	"math/rand"
 	"os"
+	"runtime"
 	"strings"
 	"sync"
 	"sync/atomic"
@@ -85,6 +86,45 @@ type world struct {
 	incb  int32 // callbacks currently executing (scheduler independent overlap witness)
 	maxcb int32
 	trap  bool
+	// free-running mode: callbacks append to this log instead of yielding to the controller
+	free bool
+	fmu  sync.Mutex
+	flog []Event
+	fseq int64
+	hold time.Duration // how long a handler stays inside the callback (free mode)
+}
+
+// report tells the recorder that a callback has been entered
+func (w *world) report(cb, id, reason string, subject any) {
+	if !w.free {
+		w.ctl.SetInfo("cb", cb)
+		w.ctl.SetInfo("id", id)
+		w.ctl.SetInfo("reason", reason)
+		point := "cb"
+		if cb == "term" {
+			point = "term"
+		}
+		w.ctl.Yield(point, subject)
+		return
+	}
+	w.fmu.Lock()
+	w.fseq++
+	w.flog = append(w.flog, Event{I: int(w.fseq), Ev: "step", Th: "R", Kind: "R", Cb: cb, ID: id, Reason: reason, Mode: "free",
+		InCb: int(atomic.LoadInt32(&w.incb)), MaxCb: int(atomic.LoadInt32(&w.maxcb))})
+	w.fmu.Unlock()
+	if w.hold > 0 {
+		time.Sleep(w.hold)
+	} else {
+		runtime.Gosched()
+	}
+}
+
+func (w *world) reportOp(th, op, res string) {
+	w.fmu.Lock()
+	w.fseq++
+	w.flog = append(w.flog, Event{I: int(w.fseq), Ev: "step", Th: th, Kind: th[:1], Op: op, Res: res, Mode: "free",
+		InCb: int(atomic.LoadInt32(&w.incb)), MaxCb: int(atomic.LoadInt32(&w.maxcb))})
+	w.fmu.Unlock()
 }
 
 func (w *world) watched(subject any) bool {
@@ -156,9 +196,7 @@ func (g *gactor) HandleMessage(from gen.PID, message any) (rr error) {
 	default:
 		m = Msg{ID: fmt.Sprintf("?%T", message), Kind: "?"}
 	}
-	w.ctl.SetInfo("cb", "msg")
-	w.ctl.SetInfo("id", m.ID)
-	w.ctl.Yield("cb", g.Process)
+	w.report("msg", m.ID, "", g.Process)
 	switch m.Kind {
 	case "err":
 		return errors.New("E:" + m.ID)
@@ -172,9 +210,7 @@ func (g *gactor) Terminate(reason error) {
 	w := g.w
 	w.enter()
 	defer w.leave()
-	w.ctl.SetInfo("cb", "term")
-	w.ctl.SetInfo("reason", classify(reason))
-	w.ctl.Yield("term", g.Process)
+	w.report("term", "", classify(reason), g.Process)
 }
 
 func classify(reason error) string {
@@ -577,4 +613,98 @@ func LoadPlans(path string) (*PlanFile, error) {
 		return nil, err
 	}
 	return &pf, nil
+}
+
+// RunFree executes a scenario without the controller: real goroutines, real parallelism.
+// Lines are ordered by a counter taken under the recorder's lock at the observation point.
+func (r *Runner) RunFree(scn *Scenario, id int, killAfter time.Duration, hold time.Duration) error {
+	w := &world{ctl: r.Ctl, trap: scn.Trap, free: true, hold: hold}
+	opts := gen.ProcessOptions{MailboxSize: scn.Limit}
+	pid, err := r.Node.Spawn(factory, opts, w)
+	if err != nil {
+		return fmt.Errorf("spawn: %w", err)
+	}
+	time.Sleep(time.Millisecond)
+	res := &Event{Plan: id, Ev: "reset", Scn: scn.Name, New: []string{}}
+	r.project(w, res)
+	r.emit(res)
+	var wg sync.WaitGroup
+	start := make(chan struct{})
+	for s, ops := range scn.Senders {
+		s, ops := s, ops
+		from := gen.PID{Node: r.Node.Name(), ID: 900000 + uint64(len(s))*1000 + uint64(s[len(s)-1]), Creation: r.Node.Creation()}
+		wg.Add(1)
+		go func() {
+			defer wg.Done()
+			<-start
+			w.reportOp(s, "", "") // the sender has begun
+			for i, op := range ops {
+				id := fmt.Sprintf("%s:%d", s, i+1)
+				var err error
+				switch op.Kind {
+				case "exit":
+					err = r.Core.RouteSendExit(from, pid, errors.New("X:"+id))
+				case "exitp":
+					err = r.Node.SendExit(pid, errors.New("X:"+id))
+				default:
+					err = r.Core.RouteSendPID(from, pid, gen.MessageOptions{Priority: prioOf(op.Q)}, Msg{ID: id, Kind: op.Kind})
+				}
+				w.reportOp(s, id, resName(err))
+			}
+		}()
+	}
+	for _, k := range scn.Killers {
+		k := k
+		wg.Add(1)
+		go func() {
+			defer wg.Done()
+			<-start
+			time.Sleep(killAfter)
+			w.reportOp(k, "", "start") // logged before the call: a terminate with reason kill may follow at once
+			err := r.Node.Kill(pid)
+			w.reportOp(k, "", resName(err))
+		}()
+	}
+	close(start)
+	wg.Wait()
+	// quiescence: the state word is stable at sleep/terminated and nothing is in a callback
+	deadline := time.Now().Add(5 * time.Second)
+	stable := 0
+	for time.Now().Before(deadline) && stable < 5 {
+		st := w.proc.State()
+		if (st == gen.ProcessStateSleep || st == gen.ProcessStateTerminated) && atomic.LoadInt32(&w.incb) == 0 {
+			stable++
+		} else {
+			stable = 0
+		}
+		time.Sleep(2 * time.Millisecond)
+	}
+	w.fmu.Lock()
+	for i := range w.flog {
+		e := w.flog[i]
+		e.Plan = id
+		e.New = []string{}
+		e.QLen = []int64{0, 0, 0, 0}
+		e.Vis = [][]string{{}, {}, {}, {}}
+		e.St = "unknown"
+		e.Tab = "?"
+		r.emit(&e)
+		if e.MaxCb > r.MaxOverlap {
+			r.MaxOverlap = e.MaxCb
+		}
+		r.Steps++
+	}
+	w.fmu.Unlock()
+	end := &Event{Plan: id, I: int(w.fseq) + 1, Ev: "end", New: []string{}, Mode: "free"}
+	if stable < 5 {
+		end.Stall = true
+		r.Stalls++
+	}
+	r.project(w, end)
+	r.emit(end)
+	r.Plans++
+	if _, err := r.Node.ProcessState(pid); err == nil {
+		r.Node.Kill(pid)
+	}
+	return nil
 }
